@@ -232,6 +232,47 @@ func c07Jobs(c *ctx) (small []iso.Job, large []iso.Job) {
 			}
 		}
 	}
+	// every proper prefix of whole frames, the 4-byte length left as it was (a short read): control frames, header-only
+	// and small data messages
+	{
+		frames := [][]byte{
+			{0, 0, 0, 10, 0xFF, 0xFF, 0, 0, 0, 5, 0, 0, 0, 1}, // linktest.req
+			{0, 0, 0, 10, 0, 1, 0, 0, 0, 1, 9, 9, 9, 9},       // select.req
+			{0, 0, 0, 10, 0, 1, 0, 3, 0, 2, 9, 9, 9, 9},       // select.rsp
+			{0, 0, 0, 10, 0, 1, 5, 2, 0, 7, 9, 9, 9, 9},       // reject.req
+			{0, 0, 0, 10, 0, 1, 0x81, 1, 0, 0, 0, 0, 0, 1},    // S1F1 W, no item
+			wrapMsg([]byte{0x01, 0x02, 0xA5, 0x01, 0x07, 0x41, 0x03, 'a', 'b', 'c'}),
+			wrapMsg([]byte{0x91, 0x04, 0x3F, 0x80, 0x00, 0x00}),
+		}
+		for _, f := range frames {
+			for n := 0; n < len(f); n++ {
+				add("short-read-of-a-whole-frame", append([]byte(nil), f[:n]...))
+			}
+		}
+	}
+	// frames decoded at the same moment by several goroutines of one worker (accepted data and control messages of every
+	// kind, refused ones): a decoder that counts, caches or scratches in package-level state shows itself or aborts
+	for b := 0; b < c.pick(30, 300); b++ {
+		var batch []byte
+		for k := 0; k < 8; k++ {
+			var f []byte
+			switch (b + k) % 4 {
+			case 0:
+				f = []byte{0, 0, 0, 10, byte(b), byte(k), 0, 0, 0, byte(1 + (b+k)%9), 1, 2, 3, byte(k)}
+			case 1:
+				body := []byte{0x01, 0x03, 0xA5, 0x02, byte(b), byte(k), 0x21, 0x00}
+				body = append(body, 0x21, 0xFF)
+				body = append(body, bytes.Repeat([]byte{byte(k)}, 255)...)
+				f = wrapMsg(body)
+			case 2:
+				f = wrapMsg(append([]byte{0x41, 0x10}, []byte(fmt.Sprintf("text-%04d-%04d..", b, k))[:16]...))
+			default:
+				f = wrapMsg([]byte{0x01, 0x02, 0xA5, 0x01}) // refused: truncated
+			}
+			batch = append(batch, f...)
+		}
+		small = append(small, iso.Job{Input: batch, Family: "concurrent-batch"})
+	}
 	// (c) chains
 	for _, depth := range []int{10, 100, 1000, 5000, c.pick(10000, 20000)} {
 		small = append(small, iso.Job{Input: c07Recipe(fmt.Sprintf("chain %d 1", depth)), Family: "closed-chain", Meta: fmt.Sprintf("chain %d 1", depth)})
@@ -506,7 +547,7 @@ func runC07(c *ctx) {
 			c.Sample(map[string]interface{}{"family": j.Family, "len": len(j.Input), "input": hex.EncodeToString(clipB(j.Input))})
 		}
 	}
-	c.Required = []string{"hook-H3-reached", "family/declared-vs-present", "family/single-point-fault", "family/long-item", "family/long-item-payload-patterns", "family/many-small-items", "family/generated-tree", "family/closed-chain", "family/nest-with-leaf-per-level", "family/nest-around-a-large-item", "family/greedy-nested-lists", "family/random", "family/repeat-in-one-process", "family/distinct-small-messages-in-one-process", "family/many-distinct-texts", "family/legit-prefix-then-hostile-tail", "accepted", "rejected"}
+	c.Required = []string{"hook-H3-reached", "family/declared-vs-present", "family/single-point-fault", "family/long-item", "family/long-item-payload-patterns", "family/many-small-items", "family/generated-tree", "family/closed-chain", "family/nest-with-leaf-per-level", "family/nest-around-a-large-item", "family/greedy-nested-lists", "family/random", "family/repeat-in-one-process", "family/short-read-of-a-whole-frame", "family/concurrent-batch", "family/distinct-small-messages-in-one-process", "family/many-distinct-texts", "family/legit-prefix-then-hostile-tail", "accepted", "rejected"}
 }
 
 // c07HistoryInputs: messages that are refused after part of their content was decoded (in a list, in a nested list,
